@@ -16,7 +16,7 @@ Proof.
   - simpl in *. auto.
   - simpl in *. apply andb_true_iff in Hw as [_ H2]. auto.
   - simpl in *. auto.
-  - simpl in Hw. discriminate.
+  - simpl in Hw. unfold bt_l1_ok in Hw. apply andb_true_iff in Hw as [Hw _]. apply andb_true_iff in Hw as [Hw _]. exact Hw.
 Qed.
 
 (* the executor-state component of a result is not observable *)
